@@ -24,6 +24,7 @@ const (
 	gRunning
 	gBlocked
 	gDone
+	gDelayed // reached a visible operation that is not yet visible to the others
 )
 
 type mchan struct {
@@ -31,6 +32,7 @@ type mchan struct {
 	cap    int
 	closed bool
 	id     int
+	site   token.Pos // where it was made (identity across paths)
 	// timer channels deliver "at any time": modelled by a token that is
 	// always available
 	timer bool
@@ -48,6 +50,7 @@ type pendOp struct {
 	cond       func() bool // predicate operation (lock, wait) when cases == nil
 	fire       func()
 	what       string
+	quiesce    bool // enabled exactly when nothing else is
 }
 
 type opResult struct {
@@ -98,6 +101,68 @@ func newSched(i *interpreter) *sched {
 func (i *interpreter) makeChan(n int) *mchan {
 	i.sch.nchan++
 	return &mchan{cap: n, id: i.sch.nchan}
+}
+
+func (i *interpreter) makeChanAt(n int, site token.Pos) *mchan {
+	ch := i.makeChan(n)
+	ch.site = site
+	return ch
+}
+
+// Sensitivity of channels to arrival order: a non-blocking select (one with
+// a default branch) observes whether a partner is already waiting. For the
+// channels such selects mention, the moment another goroutine's
+// complementary operation becomes visible is a scheduling choice.
+const (
+	sensRecvInDefault = 1 // a default-select receives from it: sends are sensitive
+	sensSendInDefault = 2 // a default-select sends on it: receives are sensitive
+)
+
+func (s *sched) othersAlive(g *gor) bool {
+	for _, h := range s.gs {
+		if h != g && h.state != gDone {
+			return true
+		}
+	}
+	return false
+}
+
+func (s *sched) sensitiveOp(op *pendOp) bool {
+	if op.hasDefault || len(op.cases) == 0 {
+		return false
+	}
+	e := s.i.ex
+	e.sensMu.Lock()
+	defer e.sensMu.Unlock()
+	for _, c := range op.cases {
+		if c.ch == nil || c.ch.site == token.NoPos {
+			continue
+		}
+		m := e.sensitive[c.ch.site]
+		if (c.send && m&sensRecvInDefault != 0) || (!c.send && m&sensSendInDefault != 0) {
+			return true
+		}
+	}
+	return false
+}
+
+func (s *sched) noteDefaultSelect(op *pendOp) {
+	e := s.i.ex
+	e.sensMu.Lock()
+	defer e.sensMu.Unlock()
+	for _, c := range op.cases {
+		if c.ch == nil || c.ch.site == token.NoPos {
+			continue
+		}
+		bit := sensRecvInDefault
+		if c.send {
+			bit = sensSendInDefault
+		}
+		if e.sensitive[c.ch.site]&bit == 0 {
+			e.sensitive[c.ch.site] |= bit
+			e.sensChanged = true
+		}
+	}
 }
 
 // spawn creates a goroutine; it starts running when the scheduler picks it.
@@ -171,6 +236,9 @@ func (s *sched) enabled() []trans {
 			continue
 		}
 		op := g.pend
+		if op.quiesce {
+			continue
+		}
 		if op.cases == nil && op.cond != nil {
 			if op.cond() {
 				ts = append(ts, trans{g: g, ci: -2, how: 4})
@@ -227,6 +295,13 @@ func (s *sched) enabled() []trans {
 			ts = append(ts, trans{g: g, ci: -1, how: 3})
 		}
 	}
+	if len(ts) == 0 {
+		for _, g := range s.gs {
+			if g.state == gBlocked && g.pend != nil && g.pend.quiesce {
+				ts = append(ts, trans{g: g, ci: -2, how: 4})
+			}
+		}
+	}
 	return ts
 }
 
@@ -267,6 +342,12 @@ func (s *sched) fire(t trans) {
 }
 
 // dispatch is run by the current goroutine g when it blocks or finishes.
+//
+// While some goroutine is still on its way to its next visible operation
+// ("ready") it is advanced first: its invisible steps commute with every
+// transition. The exception is the default branch of a non-blocking select,
+// whose outcome depends on who is already blocked: taking it now or only
+// after a ready goroutine advanced is a scheduling choice.
 func (s *sched) dispatch(g *gor) {
 	for {
 		var next *gor
@@ -276,8 +357,39 @@ func (s *sched) dispatch(g *gor) {
 				break
 			}
 		}
+		if next != nil {
+			var defaults []trans
+			for _, t := range s.enabled() {
+				if t.how == 3 {
+					defaults = append(defaults, t)
+				}
+			}
+			if len(defaults) > 0 {
+				k := s.i.choose(len(defaults)+1, "sched-default")
+				if k > 0 {
+					s.fire(defaults[k-1])
+					continue
+				}
+			}
+		}
 		if next == nil {
 			ts := s.enabled()
+			// goroutines whose operation is not visible yet may arrive now
+			var delayed []*gor
+			for _, h := range s.gs {
+				if h.state == gDelayed {
+					delayed = append(delayed, h)
+				}
+			}
+			if len(delayed) > 0 {
+				k := s.i.choose(len(ts)+len(delayed), "sched-arrival")
+				if k >= len(ts) {
+					delayed[k-len(ts)].state = gBlocked
+					continue
+				}
+				s.fire(ts[k])
+				continue
+			}
 			if len(ts) == 0 {
 				if g.state == gDone && s.gs[0].state == gDone {
 					return
@@ -325,9 +437,14 @@ func (s *sched) dispatch(g *gor) {
 func (i *interpreter) block(op *pendOp) opResult {
 	s := i.sch
 	g := s.cur
-	// fast path: single goroutine, op immediately enabled with one choice
 	g.pend = op
 	g.state = gBlocked
+	if op.hasDefault && len(s.gs) > 1 {
+		s.noteDefaultSelect(op)
+	}
+	if len(s.gs) > 1 && s.othersAlive(g) && s.sensitiveOp(op) {
+		g.state = gDelayed
+	}
 	s.dispatch(g)
 	return g.res
 }
